@@ -1298,8 +1298,16 @@ class Table:
         # second saw the new current_snapshot_id, and the reader raised
         # "metadata is inconsistent" although nothing was wrong.
         metadata = self.metadata_manager.refresh()
+        if metadata is None:
+            # A Table object only exists for an initialised table: no version
+            # hint AND no metadata file means the table's metadata is gone, not
+            # that the table is empty.
+            raise RuntimeError(
+                f"Table metadata is missing at {self.table_path}: no version hint and no "
+                f"metadata file - refusing to report a broken table as an empty one"
+            )
         snapshot = None
-        if metadata is not None and metadata.current_snapshot_id is not None:
+        if metadata.current_snapshot_id is not None:
             for s in metadata.snapshots:
                 if s.snapshot_id == metadata.current_snapshot_id:
                     snapshot = s
@@ -1308,7 +1316,7 @@ class Table:
             # An unset current_snapshot_id means "empty table". A SET id that
             # resolves to nothing means the metadata is inconsistent - returning
             # [] there would report a broken table as an empty one (#48).
-            current_id = metadata.current_snapshot_id if metadata else None
+            current_id = metadata.current_snapshot_id
             if current_id is not None and current_id != -1:
                 raise RuntimeError(
                     f"Table metadata is inconsistent: current_snapshot_id {current_id} "
